@@ -66,6 +66,10 @@ Definition trim_start_matches (p s : string) : string :=
 Definition trim_end_matches (p s : string) : string :=
   srev (trim_start_matches (srev p) (srev s)).
 
+(* Rust `s.strip_suffix(p).unwrap_or(s)`: the suffix is removed once, if it is there *)
+Definition strip_suffix_once (p s : string) : string :=
+  match strip_suffix p s with Some r => r | None => s end.
+
 (* split on a separator character, keeping empty pieces: Rust `s.split(c)` *)
 Fixpoint split_on_aux (c : ascii) (s : string) (cur : string) : list string :=
   match s with
@@ -234,4 +238,37 @@ Lemma trim_end_matches_none p s :
 Proof.
   unfold ends_with, trim_end_matches. intros H.
   rewrite trim_start_matches_none by exact H. apply srev_involutive.
+Qed.
+
+(* --- strip_suffix_once ---------------------------------------------------------------- *)
+
+Lemma strip_suffix_once_none p s :
+  ends_with p s = false -> strip_suffix_once p s = s.
+Proof.
+  unfold ends_with, strip_suffix_once, strip_suffix. rewrite starts_with_strip.
+  destruct (strip_prefix (srev p) (srev s)); [discriminate | reflexivity].
+Qed.
+
+(* exactly one copy of the suffix goes, whatever is in front of it *)
+Lemma strip_suffix_once_app p s : strip_suffix_once p (s ++ p) = s.
+Proof.
+  unfold strip_suffix_once, strip_suffix. rewrite srev_append, strip_prefix_app. apply srev_involutive.
+Qed.
+
+Lemma ends_with_app p s : ends_with p (s ++ p) = true.
+Proof.
+  unfold ends_with. rewrite srev_append, starts_with_strip, strip_prefix_app. reflexivity.
+Qed.
+
+Lemma ends_with_split p s : ends_with p s = true -> exists r, s = r ++ p.
+Proof.
+  unfold ends_with. rewrite starts_with_strip. destruct (strip_prefix (srev p) (srev s)) as [r|] eqn:E; [|discriminate].
+  intros _. apply strip_prefix_some in E. exists (srev r).
+  rewrite <- (srev_involutive s), E, srev_append, srev_involutive. reflexivity.
+Qed.
+
+Lemma strip_suffix_once_some p s :
+  ends_with p s = true -> s = strip_suffix_once p s ++ p.
+Proof.
+  intros H. destruct (ends_with_split p s H) as [r ->]. now rewrite strip_suffix_once_app.
 Qed.
